@@ -20,9 +20,11 @@ from fractions import Fraction
 from lib import core
 
 DRIVER = "drv_ptc"
+LEAN_TARGETS = ["OmplModel.Props.C18", DRIVER]
 MARGIN = 500_000_000      # ns
 SLACK = 2_000             # ns
 U32 = 1 << 32
+U64 = 1 << 64
 
 
 def fb(x):
@@ -167,6 +169,8 @@ class Spec:
             if o.lost:
                 raise Uncertain()
             o.count += 1
+            if o.count >= U64:
+                raise Uncertain()         # 2^64 evaluations cannot be reached by evaluating
             return o.count > o.n          # the property: evaluations 1..n false, n+1.. true
         if k == "timed":
             v = self.timed_value(o)
@@ -282,16 +286,14 @@ class Spec:
             else:
                 o = self.itcs[t[1]]
                 o.count += 1
+                # evaluation numbers from 2^32 on are where a 32-bit counter wrapped (F16, fixed in 354f9f45d)
                 klass = "iter-wrap" if o.count >= U32 else "iter"
-                # getTimesCalled() is an unsigned int; the property speaks about the answer only
-                exp = "r=%d tc=%d" % (1 if o.count > o.n else 0, o.count % U32)
-                if o.count >= U32:
-                    # beyond the range of getTimesCalled() only the answer is judged
-                    exp = exp.split()[0]
-                    out = out.split()[0] if out.startswith("r=") and " tc=" in out else out
+                if o.count >= U64:
+                    return (None, klass)       # not reachable by evaluating; no demand
+                exp = "r=%d tc=%d" % (1 if o.count > o.n else 0, o.count)
                 if out != exp:
                     return ("evaluation number %d of an iteration condition with n=%d answered %r, the property says %r%s"
-                            % (o.count, o.n, out, exp, " (the unsigned counter wrapped at 2^32)" if klass == "iter-wrap" else ""),
+                            % (o.count, o.n, out, exp, " (a 32-bit counter wraps here)" if klass == "iter-wrap" else ""),
                             klass)
                 return (None, klass)
         elif op == "itcreset" and len(t) == 2:
@@ -300,7 +302,7 @@ class Spec:
                 exp = "ok"
             else:
                 exp = "unknown"
-        elif op == "itcset" and len(t) == 3 and t[2].isdigit() and int(t[2]) < U32:
+        elif op == "itcset" and len(t) == 3 and t[2].isdigit() and int(t[2]) < U64:
             if t[1] in self.itcs:
                 self.itcs[t[1]].count = int(t[2])
                 exp = "ok"
@@ -310,7 +312,7 @@ class Spec:
             if t[1] in self.itcs:
                 o = self.itcs[t[1]]
                 o.count += int(t[2])
-                exp = "ok tc=%d" % (o.count % U32)
+                exp = "ok tc=%d" % o.count if o.count < U64 else None
             else:
                 exp = "unknown"
         elif op == "clock" and len(t) == 2 and (t[1].lstrip("-").isdigit()):
@@ -485,7 +487,7 @@ class Spec:
                 klass = "iter-wrap"
             what = "evaluation answered %r, the property says %r" % (out, exp)
             if klass == "iter-wrap":
-                what += " (an iteration counter passed 2^32)"
+                what += " (an iteration counter passed 2^32, where a 32-bit counter wraps)"
             return (what, klass)
         return self.note_timed(o, out)
 
@@ -660,8 +662,9 @@ def gen_iter(rng):
 
 
 def gen_iter_wrap(rng, spin=False):
-    """evaluation number 2^32 and later (reached by setting the private counter, or - thorough tier -
-    by really calling the public eval() that often)"""
+    """evaluation number 2^32 and later - where the counter wrapped while it was an unsigned int (F16,
+    fixed in /repo 354f9f45d; if the wrap ever returns this is reported as a violation again).  Reached
+    by setting the private counter, or - thorough tier - by really calling the public eval() that often."""
     g = G(rng)
     r = rng
     n = r.choice([0, 1, 7, 50, U32 - 1, U32 - 2])
@@ -820,7 +823,7 @@ def gen_adversarial(rng):
             "def y timed abc", "def y timed", "def y poll", "def y poll 0", "def y poll x pred 0", "def y costconv 3",
             "def y costconv x 0", "def y timedp 0", "ev", "ev nope", "term nope", "term", "copy %s" % a, "copy nope z",
             "copy %s %s" % (a, a), "drop nope", "script", "script 0", "script 0 2", "script 0 0 1 2", "script x 0", "itc",
-            "itc q", "itc q -1", "itc q 4294967296", "itcev nope", "itcreset nope", "itcset nope 3", "itcset", "clock",
+            "itc q", "itc q -1", "itc q 4294967296", "itcset q0 18446744073709551616", "itcev nope", "itcreset nope", "itcset nope 3", "itcset", "clock",
             "clock x", "wait", "wait x", "cost", "cost x", "cost 99999999999999999999999", "soln", "soln 2 0", "soln 0",
             "solnclear now", "solve", "solve x", "frobnicate", "EV %s" % a, "def z itc nope", "def z poll 0 itc nope",
             "itcspin nope 3", "itcspin"]
@@ -1074,8 +1077,8 @@ def run(ck):
         "the data race on the plain bool terminate_ is C19's subject; here terminate() is issued from a second thread "
         "*between* evaluations",
     ]
-    ck.lean_build(["OmplModel.Props.C18", DRIVER])
-    ck.audit()
+    ck.lean_build(LEAN_TARGETS)
+    ck.audit(roots=["Drv.Ptc"])
     if ck.tier == "thorough" and ck.lean_ok:
         ck.leanchecker(["OmplModel.Props.C18"])
     hbin = ck.build_harness("ptc", ["ptc.cpp"], link_ompl=True)
@@ -1172,7 +1175,8 @@ MANIFEST = {
             "explored, the harness (private access for its own translation unit, clock interposition), the Python spec. "
             "Assumed: monotone clock, scheduler slack below 0.5 s (3 attempts), microsecond truncation of durations not "
             "judged, IEEE rounding of the cost average modelled (executed bit-exactly) but proved over Q only. "
-            "Known finding F16: the unsigned iteration counter wraps at 2^32 evaluations.",
+            "F16 (32-bit iteration counter wrapped at 2^32 evaluations) is fixed in /repo 354f9f45d; the scripts that "
+            "cross evaluation 2^32 stay in the corpus and the generators.",
     "technique": "Lean 4 proof (structural induction over condition trees and operation sequences, recurrence over Q) + "
                  "differential correspondence + spec oracle",
 }
